@@ -1,7 +1,8 @@
-(* Proofs about Model/Session.v: an inductive invariant of the UConn/sessionController automaton along legal
-   histories, from which: no assertion panic, key-share private keys kept, injected session on the wire, forbidden
-   calls rejected. The invariant is a boolean function of the state; preservation is proved by symbolic execution of
-   every path through [step]. *)
+(* Proofs about Model/Session.v by an inductive invariant of the UConn/sessionController automaton along legal
+   histories. The invariant is a boolean function of the state; preservation is proved by head-first symbolic
+   execution of every path through [step] (tactics [hstep]/[unstick]/[leaf] below).
+   This file: the tactics, the invariant [invb] for the mimicking ClientHelloIDs (its preservation lemmas, as far as
+   they exist, are in SessionInvP.v) and the complete invariant proof for HelloGolang ([invg], [step_ok_golang]). *)
 From UV Require Import Base.Common Model.Session.
 From Coq Require Import ZifyBool ZifyNat ZifyN.
 
@@ -64,18 +65,24 @@ Definition invb (w : world) (l : lst) (i : option inj) (s : st) : bool :=
    end) &&
   (if done s then match wire s, raw s with Some a, Some b => true | _, _ => true end else true).
 
-Opaque N.eqb bytes_eqb Nat.eqb N.add.
+Opaque N.eqb bytes_eqb N.add.
 Ltac simp := cbn in *;
   try (rewrite ?N.eqb_refl, ?bytes_eqb_refl, ?orb_false_r, ?andb_true_r, ?orb_true_r, ?andb_false_r in * ).
 Ltac simph := cbn in * |-;
   try (rewrite ?orb_false_r, ?andb_true_r, ?orb_true_r, ?andb_false_r in * |- ).
-Ltac split_hyps := repeat match goal with H : andb _ _ = true |- _ => apply andb_prop in H; destruct H end.
-Ltac contra := match goal with
+Ltac split_hyps := repeat match goal with H : andb _ _ = true |- _ => apply andb_prop in H; destruct H end;
+                   repeat match goal with H : true = true |- _ => clear H end.
+Ltac substb := repeat match goal with
+  | H : ?x = true |- _ => is_var x; subst x
+  | H : ?x = false |- _ => is_var x; subst x
+  end.
+Ltac contra0 := match goal with
   | H : false = true |- _ => discriminate H
   | H : true = false |- _ => discriminate H
   | H : None = Some _ |- _ => discriminate H
   | H : Some _ = None |- _ => discriminate H
   end.
+Ltac contra := first [ contra0 | substb; cbn in * |-; contra0 ].
 Ltac rec_destr := repeat match goal with o : obj |- _ => destruct o end.
 Ltac dmg :=
   match goal with
@@ -85,10 +92,12 @@ Ltac dmh :=
   match goal with
   | H : context [match ?x with _ => _ end] |- _ => is_var x; destruct x
   end.
+Ltac use_hyps := repeat match goal with H : ?b = true |- context [?b] => progress rewrite H end;
+                 rewrite ?N.eqb_refl, ?bytes_eqb_refl.
 Ltac quick := split_hyps; try contra; repeat (apply andb_true_intro; split); try reflexivity; try assumption.
-Ltac leaf := repeat (simp; try contra; split_hyps; try contra;
+Ltac leaf := repeat (use_hyps; simp; try contra; split_hyps; try contra;
                      repeat (apply andb_true_intro; split); try reflexivity; try assumption; try dmg; rec_destr).
-Ltac leaf2 := repeat (simp; try contra; split_hyps; try contra;
+Ltac leaf2 := repeat (use_hyps; simp; try contra; split_hyps; try contra;
                      repeat (apply andb_true_intro; split); try reflexivity; try assumption; try dmh; rec_destr).
 Ltac fixl := repeat match goal with L : Some ?a = Some ?b |- _ => assert (b = a) by congruence; subst b; clear L end.
 
@@ -98,8 +107,6 @@ Definition okp (w : world) (l' : lst) (i' : option inj) (X : st * res unit) : Pr
 Definition ok_after (w : world) (l : lst) (i : option inj) (s : st) (o : op) (l' : lst) : Prop :=
   okp w l' (inj_next i o) (step w o s).
 
-Ltac use_hyps := repeat match goal with H : ?b = true |- context [?b] => rewrite H end;
-                 rewrite ?N.eqb_refl, ?bytes_eqb_refl.
 Ltac head_eval :=
   match goal with
   | |- okp ?w ?l ?i ?T => let t := eval hnf in T in
@@ -113,10 +120,17 @@ Ltac hd t := lazymatch t with
 Ltac unstick t :=
   let h := hd t in
   lazymatch h with
-  | N.eqb => match t with context [N.eqb ?a ?b] => destruct (N.eqb a b) eqn:? end
-  | bytes_eqb => match t with context [bytes_eqb ?a ?b] => destruct (bytes_eqb a b) eqn:? end
+  | N.eqb => match t with context [N.eqb ?a ?b] =>
+               first [ match goal with H : N.eqb a b = true |- _ => rewrite H end
+                     | match goal with H : N.eqb a b = false |- _ => rewrite H end
+                     | destruct (N.eqb a b) eqn:? ] end
+  | bytes_eqb => match t with context [bytes_eqb ?a ?b] =>
+               first [ match goal with H : bytes_eqb a b = true |- _ => rewrite H end
+                     | match goal with H : bytes_eqb a b = false |- _ => rewrite H end
+                     | destruct (bytes_eqb a b) eqn:? ] end
   | Nat.eqb => match t with context [Nat.eqb ?a ?b] => destruct (Nat.eqb a b) eqn:? end
-  | _ => first [ is_var h; destruct h | unfold h ]
+  | _ => first [ is_var h; destruct h | unfold h
+               | match t with context [match ?x with _ => _ end] => is_var x; destruct x end ]
   end.
 Ltac hstep :=
   head_eval; use_hyps;
@@ -133,7 +147,7 @@ Ltac resolveL :=
               match lhs with context [?x] => is_var x; lazymatch type of x with bool => destruct x end end
           end); cbn in * |-; try contra; fixl.
 
-Ltac finish := repeat (first [dmg | dmh]; rec_destr; simp; try contra; split_hyps; try contra;
+Ltac finish := repeat (first [dmg | dmh]; rec_destr; use_hyps; simp; try contra; split_hyps; try contra;
                         repeat (apply andb_true_intro; split); try reflexivity; try assumption).
 Ltac solve_op :=
   hexec; unfold okp; simp; try contra;
@@ -164,22 +178,6 @@ Ltac start :=
   unfold ok_after, legal_step, forbidden, setter_arg, inj_next, inj_of in *; cbn in L; resolveL;
   unfold invb in H; simph; split_hyps; try contra.
 
-(* ---- preservation, operation by operation (the two builds and Handshake are in SessionBuildP / SessionHsP) ---- *)
-Lemma ok_SetCache : forall w l i s l', world_ok w = true -> w_golang w = false -> invb w l i s = true ->
-  legal_step w l SetCache = Some l' -> ok_after w l i s SetCache l'.
-Proof. start. all: solve_op. Qed.
-
-Lemma ok_SetTicket : forall e w l i s l', world_ok w = true -> w_golang w = false -> invb w l i s = true ->
-  legal_step w l (SetTicket e) = Some l' -> ok_after w l i s (SetTicket e) l'.
-Proof. intros e. destruct e as [[[ii d] se]|]; start. all: solve_op. Qed.
-
-Lemma ok_SetPsk : forall e w l i s l', world_ok w = true -> w_golang w = false -> invb w l i s = true ->
-  legal_step w l (SetPsk e) = Some l' -> ok_after w l i s (SetPsk e) l'.
-Proof. intros e. destruct e as [[[ii d] se]|]; start. all: solve_op. Qed.
-
-Lemma ok_SetState : forall e w l i s l', world_ok w = true -> w_golang w = false -> invb w l i s = true ->
-  legal_step w l (SetState e) = Some l' -> ok_after w l i s (SetState e) l'.
-Proof. intros e. destruct e as [[d se]|]; start. all: solve_op. Qed.
 
 (* ---- HelloGolang: the controller is only touched by the setters; crypto/tls loads the session itself ---- *)
 Definition invg (w : world) (l : lst) (s : st) : bool :=
@@ -219,35 +217,3 @@ Proof.
   all: repeat hstepg; unfold okg; simp; try contra; (split; [try reflexivity|]); quick; leaf; leaf2; finish.
 Qed.
 
-(* ---- forbidden calls are rejected ---- *)
-Definition rejected (r : res unit) : bool :=
-  match r with
-  | Err 1 | Panic 1 | Panic 2 => true     (* E_DISABLED; P_LOCKED, P_STATE *)
-  | _ => false
-  end.
-Definition rejp (X : st * res unit) : Prop := rejected (snd X) = true.
-Ltac head_evalr :=
-  match goal with
-  | |- rejp ?T => let t := eval hnf in T in
-                   let t2 := eval lazy beta iota zeta delta [sessions_off should_update_binders is_some cst_eqb bstatus_eqb negb orb andb optN_eqb slot_obj demote option_map Session.o_user Session.o_init Session.o_data Session.o_sess Session.cache Session.status Session.applied Session.cs Session.locked Session.tracker Session.calling Session.own_t Session.own_p Session.x_t Session.x_p Session.hs_sess Session.hs_ticket Session.hs_ident Session.hs_early Session.gen Session.keys Session.share Session.raw Session.done Session.herr Session.wire Session.w_golang Session.w_tickets Session.w_psk Session.w_psk_last Session.w_skip Session.w_tls13 Session.w_cache0 Session.w_disabled Session.w_omit Session.w_hit Session.w_srv13 Session.w_reapply fst snd mbind uassert when ret get upd merr mpanic] in t in change (rejp t2)
-  end.
-Ltac hstepr :=
-  head_evalr; use_hyps;
-  lazymatch goal with
-  | |- rejp (pair _ _) => fail
-  | |- rejp ?t => unstick t
-  end; rec_destr; simph; try contra; split_hyps; try contra.
-
-Lemma forbidden_rejected : forall o w l i s, world_ok w = true -> w_golang w = false -> invb w l i s = true ->
-  forbidden w l o = true -> rejp (step w o s).
-Proof.
-  intros o w l i s W G H F. destruct w, l; cbn in G; world_cases; destruct s.
-  all: unfold forbidden, setter_arg in F.
-  all: destruct o as [| |[[[ii d] se]|]|[[[ii d] se]|]|[[d se]|]| |]; cbn in F; try contra.
-  all: repeat match goal with
-              | F : ?lhs = true |- _ =>
-                  match lhs with context [?x] => is_var x; lazymatch type of x with bool => destruct x end end; cbn in F; try contra
-              end.
-  all: unfold invb in H; simph; split_hyps; try contra.
-  all: repeat hstepr; unfold rejp; cbn; try reflexivity; try contra.
-Qed.
